@@ -19,7 +19,15 @@ property oracle applied to the implementation's answers:
 Property oracle for A2 and B (python, independent of the models, time-based): a commit attempt of
 T is expected to be refused iff a successful commit that still exists (not discarded by a later
 restore) completed after T began and wrote one of T's keys; it must not be answered Conflict
-otherwise, and not Retry unless T is unregistered or began before a restore."""
+otherwise, and not Retry unless T is unregistered or began before a restore.
+Since the repair of C04-N1 (the restore epoch: `begin_epoch != restore_epoch => TransactionRetry`
+at the head of the commit critical section): a transaction (read-write or write-only) that is open
+across a restore MUST be answered Retry at every later commit attempt — also after commits of
+the new timeline have brought the visible sequence number back up to its old start (corpus
+history `restore-catchup`) — and a transaction that begins after the last restore must never be
+answered Retry.  The former class restore_keeps_open_txns is no longer known: any recurrence is a
+violation.  Unregistered committers (engine A2 only: the epoch-less pipeline entry kept for the
+crate's own tests) are outside this rule."""
 import os, re
 from . import common as C
 from . import e2gen as G
@@ -70,6 +78,7 @@ class Hist:
     def evaluate(self):
         """-> list of (event index, kind, known_class or None, text)"""
         out = []
+        self.stats = dict(open_across_restore_refused=0, open_across_restore_unregistered=0, fresh_after_restore_commits=0)
         for n, e in enumerate(self.ev):
             if e["op"] != "commit" or e["verdict"] not in ("ok", "conflict", "retry") or not e["keys"]:
                 continue
@@ -79,6 +88,22 @@ class Hist:
             b = t["begin"]
             restores = [j for j in range(b + 1, n) if self.ev[j]["op"] == "restore"]
             stale = bool(restores)
+            if stale and t["reg"]:
+                # the repaired commit path: a transaction of an earlier restore epoch is refused before the oracle is consulted
+                if e["verdict"] != "retry":
+                    later = [j for j in range(restores[0] + 1, n) if self.ev[j]["op"] == "commit" and self.ev[j]["verdict"] == "ok"]
+                    out.append((n, "open-across-restore-accepted" if e["verdict"] == "ok" else "open-across-restore-not-retry", None,
+                                "transaction %d (began at event %d) is open across the restore at event %d (%d successful commits since) "
+                                "and its commit of %s was answered %s: expected Retry"
+                                % (e["id"], b, restores[0], len(later), ",".join(e["keys"]), e["verdict"])))
+                else:
+                    self.stats["open_across_restore_refused"] += 1
+                continue
+            if stale:
+                self.stats["open_across_restore_unregistered"] += 1      # epoch-less entry: no expectation
+                continue
+            if any(x["op"] == "restore" for x in self.ev[:b]):
+                self.stats["fresh_after_restore_commits"] += 1
             overl = None
             for j in range(b + 1, n):
                 c = self.ev[j]
@@ -89,8 +114,7 @@ class Hist:
                 failed_between = any(self.ev[j]["op"] == "commit" and self.ev[j]["verdict"] == "failed" and set(self.ev[j]["keys"]) & common
                                      for j in range(overl + 1, n))
                 # (a failed commit on the key in between is the pattern of F13, repaired in 229b27b: no longer a known class)
-                cls = "restore_keeps_open_txns" if stale else None
-                out.append((n, "lost-update", cls,
+                out.append((n, "lost-update", None,
                             "transaction %d (began at event %d) committed key(s) %s although the commit at event %d wrote %s after it began%s"
                             % (e["id"], b, ",".join(sorted(common)), overl, ",".join(sorted(common)),
                                " (a commit on that key failed and was rolled back in between)" if failed_between else "")))
@@ -98,11 +122,11 @@ class Hist:
                 out.append((n, "false-conflict", None,
                             "transaction %d (began at event %d) was answered Conflict on %s; no surviving commit since its begin wrote these keys"
                             % (e["id"], b, ",".join(e["keys"]))))
-            elif e["verdict"] == "retry" and overl is None and t["reg"] and not stale:
-                earlier_restore_with_open = any(self.ev[j]["op"] == "restore" and self.open_at(j) for j in range(0, n))
-                cls = "restore_keeps_open_txns" if earlier_restore_with_open else None
-                out.append((n, "spurious-retry", cls,
-                            "transaction %d began at event %d after every restore, registered, and was answered Retry" % (e["id"], b)))
+            elif e["verdict"] == "retry" and overl is None and t["reg"]:
+                out.append((n, "spurious-retry", None,
+                            "transaction %d began at event %d after every restore, registered, and was answered Retry%s"
+                            % (e["id"], b, " (a transaction was open across an earlier restore)"
+                               if any(self.ev[j]["op"] == "restore" and self.open_at(j) for j in range(0, n)) else "")))
         return out
 
     def open_at(self, j):
@@ -360,8 +384,10 @@ def witness_f13(g):
 
 
 def witness_restore(g, gi):
-    """the Coq witness fr_steps: rewind below an open transaction's start, then that transaction
-    commits at a GC firing; afterwards fresh transactions are refused with Retry"""
+    """the Coq witness fr_steps (regression history of C04-N1 (b), repaired): rewind below an open
+    transaction's start, then that transaction commits where a GC would fire: it must be answered
+    Retry (it began before the restore), and the fresh transactions after it must be accepted
+    (before the repair: accepted, and every later transaction refused with Retry for good)"""
     g.filler(5)
     g.checkpoint() if g.api else None
     g.filler(gi + 100)
@@ -381,8 +407,9 @@ def witness_restore(g, gi):
 
 
 def witness_restore_lost_update(g):
-    """an open transaction survives a restore that rewinds below its start; a transaction that
-    begins and commits after the restore writes the same key; both commit"""
+    """regression history of C04-N1 (a), repaired: an open transaction survives a restore that
+    rewinds below its start; a transaction that begins and commits after the restore writes the
+    same key; the stale one must be answered Retry (before the repair both committed)"""
     g.filler(2)
     g.checkpoint() if g.api else None
     g.filler(3)
@@ -397,6 +424,70 @@ def witness_restore_lost_update(g):
     t2 = g.begin("rw")
     g.commit(t2, [HOT[0]])
     g.commit(t1, [HOT[0]])
+
+
+def witness_restore_catchup(g):
+    """the Coq witness cu_pre/cu_post (corpus history): as above, but further commits bring the
+    visible sequence number back up to the stale transaction's start: its commit must STILL be
+    answered Retry (a test on the start sequence number alone lets it through: lost update)"""
+    g.filler(2)
+    g.checkpoint() if g.api else None
+    g.filler(2)
+    t1 = g.begin("rw")
+    if g.api:
+        g.restore()
+    else:
+        g.ask("cs restoreto 2")
+        g.calls(None)
+        g.h.restore(2)
+        g.restores += 1
+    t2 = g.begin("rw")
+    g.commit(t2, [HOT[0]])
+    g.commit(t1, [HOT[0]])          # Retry (visible 3 < its start 4)
+    t3 = g.begin("rw")
+    g.commit(t3, [HOT[1]])
+    g.commit(t1, [HOT[0]])          # Retry again, although visible = 4 = its start
+
+
+def restore_open(g, gi, rng):
+    """transactions of both modes begin at different points before and after a checkpoint and stay
+    open across one or two restores; afterwards fresh transactions and the old ones commit in a
+    random order on few keys (old ones: always Retry, also once the new timeline has passed their start)"""
+    g.filler(rng.randint(0, 4), hot_every=2)
+    olds = []
+    for _ in range(rng.randint(0, 2)):
+        olds.append(g.begin())
+        g.filler(rng.randint(0, 2), hot_every=rng.choice([0, 1]))
+    if g.api:
+        g.checkpoint()
+    mark = int(re.search(r"visible=(\d+)", g.m.ask("cs state")).group(1))
+    for _ in range(rng.randint(1, 4)):
+        g.filler(rng.randint(1, 4), hot_every=rng.choice([0, 1, 2]))
+        olds.append(g.begin())
+    g.filler(rng.randint(0, 3))
+    for rnd in range(rng.choice([1, 1, 2])):
+        if g.api:
+            g.restore()
+        else:
+            g.ask("cs restoreto %d" % mark)
+            g.calls(None)
+            g.h.restore(mark)
+            g.restores += 1
+        for _ in range(rng.randint(2, 14)):
+            r = rng.random()
+            if r < 0.45:
+                g.filler(1, hot_every=rng.choice([0, 1, 1]))
+            elif r < 0.8 and olds:
+                i = rng.choice(olds)
+                if i in g.open:
+                    g.commit(i, [rng.choice(HOT[:3])] if rng.random() < 0.8 else None)
+            elif r < 0.9:
+                olds.append(g.begin())
+            elif g.open:
+                g.end(rng.choice(list(g.open)))
+    for i in olds:
+        if i in g.open:
+            g.commit(i, [rng.choice(HOT[:3])])
 
 
 def late_recommit(g, gi, rng):
@@ -429,6 +520,10 @@ def gen_history(rng, model, api, gi, kind):
         witness_restore(g, gi)
     elif kind == "restore-lost-update":
         witness_restore_lost_update(g)
+    elif kind == "restore-catchup":
+        witness_restore_catchup(g)
+    elif kind == "restore-open":
+        restore_open(g, gi, rng)
     elif kind == "short":
         for _ in range(rng.randint(20, 90)):
             g.step(SHORT_W)
@@ -586,7 +681,8 @@ def explore(ctx):
     plans = []
     for api in (False, True):
         plans += [(api, "f13")] if not api else []
-        plans += [(api, "restore-livelock"), (api, "restore-lost-update")]
+        plans += [(api, "restore-livelock"), (api, "restore-lost-update"), (api, "restore-catchup")]
+        plans += [(api, "restore-open")] * (40 if quick else 1000)
         ns, nl = ((160, 16) if quick else (4000, 320)) if not api else ((100, 12) if quick else (2500, 200))
         plans += [(api, "short")] * ns + [(api, "long")] * nl + [(api, "late-recommit")] * (4 if quick else 64)
     jobs = [(ctx["seed"] * 1000003 + 17 * n, api, kind, gi) for n, (api, kind) in enumerate(plans)]
@@ -601,7 +697,8 @@ def explore(ctx):
     scripts = [(g.cs if api else g.orc) for api, kind, g in gens]
     out = run_scripts(scripts)
     stats = dict(histories_orc=0, histories_api=0, commits=0, failed_commits=0, restores=0, histories_over_2_gc_intervals=0,
-                 conflicts=0, retries=0)
+                 conflicts=0, retries=0, open_across_restore_refused_api=0, open_across_restore_refused_model=0,
+                 fresh_after_restore_commits_api=0)
     seen_unknown = set()
     for (api, kind, g), L, (il, ml) in zip(gens, scripts, out):
         cov["evaluations"] += len(L)
@@ -642,7 +739,11 @@ def explore(ctx):
         stats["retries"] += sum(1 for e in g.h.ev if e["op"] == "commit" and e["verdict"] == "retry")
         if any(e["op"] == "commit" and e["verdict"] == "conflict" for e in g.h.ev):
             distinct.add(C.fnv("\n".join(L).encode()))
-        for (n, what, cls, text) in g.h.evaluate():
+        verdicts = g.h.evaluate()
+        stats["open_across_restore_refused_api" if api else "open_across_restore_refused_model"] += g.h.stats["open_across_restore_refused"]
+        if api:
+            stats["fresh_after_restore_commits_api"] += g.h.stats["fresh_after_restore_commits"]
+        for (n, what, cls, text) in verdicts:
             e = g.h.ev[n]
             upto = e.get("line")
             desc = "%s: %s [%s history, %s]" % (what, text, kind, "public API" if api else "oracle facade")
@@ -691,7 +792,8 @@ def explore(ctx):
                    "each hot key's stamp compared with Conc/Oracle.v; A2: histories of Conc/CommitSeq.v (begin rw/wo/unregistered, commit, failed commit "
                    "with rollback, re-commit after failure, end, restore to arbitrary points, > 2 x GC_INTERVAL commits under old open transactions) "
                    "replayed call by call on the crate's oracle; B: the failure-free histories on a real store through the public API incl. "
-                   "create_checkpoint/restore_from_checkpoint; C: E2 programs with many overlapping writers on few keys, write-only transactions and "
+                   "create_checkpoint/restore_from_checkpoint, with transactions of both modes left open across one or two restores (their commits must be "
+                   "answered Retry for good, fresh ones never; corpus: restore-livelock, restore-lost-update, restore-catchup); C: E2 programs with many overlapping writers on few keys, write-only transactions and "
                    "> GC_INTERVAL commits under open readers vs Spec/Machine.v; D: interleavings of 3-8 committer threads whose transactions all write one key "
                    "(engine E3, yield points of the commit pipeline): no two overlapping writers both commit. Non-trivial = a history/program in which at least one commit was refused "
                    "with Conflict; distinct by script text" % (n_short + n_long, n_long))
